@@ -1,5 +1,6 @@
 import Beeb.Props.C10
 #print axioms Beeb.Props.C10.C10_attach
 #print axioms Beeb.Props.C10.C10_transparent
+#print axioms Beeb.Props.C10.C10_transparent_readonly
 #print axioms Beeb.Props.C10.C10_bad_gz_rejected
 #print axioms Beeb.Props.C10.C10_hints
